@@ -418,3 +418,26 @@ func valRelative(r *Rng) *ValSpec {
 	}
 	return &ValSpec{From: fmt.Sprintf("19%02d-%02d-%02d", r.Range(90, 99), r.Range(1, 12), r.Range(1, 28)), Until: fmt.Sprintf("21%02d-%02d-%02d", r.Range(0, 50), r.Range(1, 12), r.Range(1, 28))}
 }
+
+// bigArcs: OID arcs around the limits of 32- and 64-bit integers. An OID with such an arc is a valid
+// OID; whether gopki accepts it in a configuration is its choice (a configuration error is fine), but
+// if it issues a certificate with it, it has to live with that certificate in the next run.
+var bigArcs = []string{"2147483647", "2147483648", "4294967295", "4294967296", "9007199254740993", "9223372036854775807"}
+
+// addBigOid puts one OID with a large arc somewhere into the entity's configuration and says where.
+func addBigOid(r *Rng, e *EntitySpec) string {
+	arc := Pick(r, bigArcs)
+	switch r.Intn(4) {
+	case 0:
+		e.Subject = append([]RDN{{"1.2.3." + arc, "big arc"}}, e.Subject...)
+		return "subject:" + arc
+	case 1:
+		e.Exts = append(e.Exts, ExtSpec{Kind: "custom", Oid: "1.3.6.1.4.1." + arc + ".1", Raw: "!binary:" + b64(r.Bytes(5))})
+		return "custom-extension:" + arc
+	case 2:
+		e.Exts = append(e.Exts, ExtSpec{Kind: "certificatePolicies", Content: rawJSON([]any{map[string]any{"oid": "2.23." + arc}})})
+		return "policy:" + arc
+	}
+	e.Exts = append(e.Exts, ExtSpec{Kind: "extendedKeyUsage", Content: rawJSON([]string{"serverAuth", "1.3.6.1.5.5.7.3." + arc})})
+	return "eku:" + arc
+}
